@@ -10,4 +10,5 @@ for c in "$@"; do
   grep -A4 '^VIOLATION' /tmp/try_seed_$c.log | head -12 | cut -c1-400
   grep '^INCONCLUSIVE\|^ANALYSIS' /tmp/try_seed_$c.log | head -3 | cut -c1-400
 done
-git -C /repo checkout -- .
+git -C /repo apply -R "$P" 2>/dev/null || git -C /repo checkout -- .
+if [ -n "$(git -C /repo status --porcelain | grep -v _build)" ]; then echo "WARNING: /repo not clean after revert"; git -C /repo status --short | grep -v _build; fi
